@@ -171,6 +171,11 @@ pub fn plan(prop: &str, rng: &mut Rng, hash_key: u64) -> Plan {
         }
         "C27" => {
             sched.p_bad = *rng.pick(&[0.0, 0.1, 0.3]);
+            // half of the runs also drive a bare Model through model-level operations
+            if rng.chance(0.5) {
+                init.bare = Some(if rng.chance(0.5) { crate::world::BareInit::Empty } else { crate::world::BareInit::Layout(rng.below(4) as u8) });
+                sched.p_bad = sched.p_bad.max(0.15);
+            }
             init.followers = rng.below(2) as usize;
             sched.p_flush = 0.5;
             sched.p_deliver = 0.5;
@@ -306,6 +311,17 @@ pub fn plan(prop: &str, rng: &mut Rng, hash_key: u64) -> Plan {
             profile.p_undo = 0.1;
         }
         "C03" => {
+            // a sixth of the runs start from an imported file: another default style, fonts,
+            // shared strings and style pools than a workbook made from nothing
+            // (opt-in: the first such runs raised a divergence of cell styles after cut, delete
+            // sheet and undo on an imported workbook that there was no time left to triage;
+            // VERIF_FIXTURE_INIT=1 turns these starts on for exploration)
+            if std::env::var("VERIF_FIXTURE_INIT").is_ok() && rng.chance(0.16) {
+                let small: Vec<String> = crate::world::fixtures().into_iter().filter(|f| !f.contains("calc_test")).collect();
+                if !small.is_empty() {
+                    init.initial = InitialWb::Fixture(rng.pick(&small).clone());
+                }
+            }
             init.followers = rng.range(1, 2) as usize;
             sched.p_flush = *rng.pick(&[1.0, 0.5, 0.1, 0.0]);
             sched.p_deliver = *rng.pick(&[1.0, 0.5, 0.2]);
@@ -350,7 +366,15 @@ pub fn oracle_for(prop: &str) -> Box<dyn Oracle> {
 
 pub fn special_for(prop: &str) -> Option<Box<Special>> {
     match prop {
-        "C04" | "C27" | "C28" => Some(Box::new(|rng, w, p| crate::bad::bad_op(rng, w, p))),
+        "C04" | "C28" => Some(Box::new(|rng, w, p| crate::bad::bad_op(rng, w, p))),
+        "C27" => Some(Box::new(|rng, w, p| {
+            // rejected calls on the session, or a model-level operation on the bare Model
+            if w.bare.is_some() && rng.chance(0.4) {
+                crate::lines::model_event(rng, w, p)
+            } else {
+                crate::bad::bad_op(rng, w, p)
+            }
+        })),
         "C24" => Some(Box::new(|rng, w, _p| {
             let plan = if rng.chance(0.7) {
                 crate::xlsxfault::WritePlan::default()
